@@ -24,3 +24,121 @@ func VH_C09_close_twice() {
 	vQuiescent(c, "C09.close.bootstrap-after")
 	vAssert(bc != nil, "C09.close.bootstrap-after-returns-error-client")
 }
+
+// Bootstrap under every combination of transport faults
+func VH_C09_bootstrap_faults() {
+	t := &vTransport{faultNewMessage: true, faultSend: true}
+	c := vNewConn(t, nil)
+	bc := c.Bootstrap(context.Background())
+	vReach("returned")
+	vAssert(bc != nil, "C09.bootstrap.returns-a-client")
+	vQuiescent(c, "C09.bootstrap")
+	// a failed Bootstrap frees its question id (no Bootstrap was sent for it)
+	if t.sends == 0 {
+		vAssert(len(c.questions) == 0 || c.questions[0] == nil, "C09.bootstrap.failed-question-dropped")
+	}
+	// and the connection is still usable / closable
+	err := c.Close()
+	vQuiescent(c, "C09.bootstrap.close-after")
+	_ = err
+}
+
+// a call on an imported capability under every combination of transport faults
+func VH_C09_import_send_faults() {
+	t := &vTransport{faultNewMessage: true, faultSend: true}
+	c := vNewConn(t, nil)
+	c.mu.Lock()
+	client := c.addImport(importID(vNondetU32()))
+	c.mu.Unlock()
+	vRegion("newmessage_failed", true)
+	ans, rel := client.SendCall(context.Background(), capnpSend(vNondetBool()))
+	vReach("returned")
+	vAssert(ans != nil && rel != nil, "C09.import.send.returns-an-answer")
+	vQuiescent(c, "C09.import.send")
+	if t.sends == 0 {
+		vAssert(len(c.questions) == 0 || c.questions[0] == nil, "C09.import.send.failed-question-dropped")
+	}
+}
+
+// a pipelined call on an unreturned question under every combination of transport faults
+func VH_C09_pipeline_send_faults() {
+	t := &vTransport{}
+	c := vNewConn(t, nil)
+	bc := c.Bootstrap(context.Background()) // succeeds: question 0 outstanding
+	vAssume(t.sends == 1)
+	t.faultNewMessage, t.faultSend = true, true
+	vRegion("newmessage_failed", true)
+	ans, rel := bc.SendCall(context.Background(), capnpSend(vNondetBool()))
+	vReach("returned")
+	vAssert(ans != nil && rel != nil, "C09.pipeline.send.returns-an-answer")
+	vQuiescent(c, "C09.pipeline.send")
+}
+
+// H-torn: after a torn write (some, but not all, bytes of a frame were accepted by the stream) no
+// further bytes are written to the stream.
+type vRWC struct {
+	accepted int // bytes accepted in total
+	writes   int
+	fail     bool // writes may fail from now on
+}
+
+func (w *vRWC) Read(p []byte) (int, error) { return 0, vFault{} }
+func (w *vRWC) Close() error               { return nil }
+func (w *vRWC) Write(b []byte) (int, error) {
+	w.writes++
+	if w.fail && vNondetBool() {
+		// a failing write accepts none or some of the bytes
+		n := 0
+		if len(b) > 1 && vNondetBool() {
+			n = 1
+		}
+		w.accepted += n
+		return n, vFault{}
+	}
+	w.accepted += len(b)
+	return len(b), nil
+}
+
+func vTorn(packed bool) {
+	w := &vRWC{fail: true}
+	var t Transport
+	if packed {
+		t = NewPackedStreamTransport(w)
+	} else {
+		t = NewStreamTransport(w)
+	}
+	ctx := context.Background()
+	msg, send, release, err := t.NewMessage(ctx)
+	vAssume(err == nil)
+	boot, err := msg.NewBootstrap()
+	vAssume(err == nil)
+	boot.SetQuestionId(vNondetU32())
+	serr := send()
+	release()
+	vReach("sent")
+	frameBytes := w.accepted
+	if serr == nil {
+		vAssert(frameBytes > 0, "C09.torn.successful-send-wrote-the-frame")
+		return
+	}
+	torn := frameBytes > 0 // the send failed although part of the frame was accepted
+	vRegion("torn_write", torn)
+	// any further use of the transport
+	writesBefore := w.writes
+	w.fail = false
+	msg2, send2, release2, err2 := t.NewMessage(ctx)
+	if err2 == nil {
+		b2, err := msg2.NewBootstrap()
+		vAssume(err == nil)
+		b2.SetQuestionId(1)
+		err2 = send2()
+		release2()
+	}
+	if torn {
+		vAssert(w.writes == writesBefore, "C09.torn.no-bytes-written-after-a-torn-write")
+		vAssert(err2 != nil, "C09.torn.later-sends-fail")
+	}
+}
+
+func VH_C09_torn_write()        { vTorn(false) }
+func VH_C09_torn_write_packed() { vTorn(true) }
